@@ -25,6 +25,10 @@ func checkC05(w *World, r *Report) {
 	checkC05SharedState(w, r, p)
 	checkC05ContextOwner(w, r, p)
 	checkAppendAliasing(w, r, "C05.6")
+	// lock-free readers are race-free only if published nodes are never written (rule C03.1)
+	o := newOwn(w)
+	o.analyseAll()
+	checkOwnWrites(w, r, o, "C05.7")
 }
 
 // ---- C05.1 / C05.2 ----------------------------------------------------------------------------------------
@@ -271,16 +275,16 @@ func checkC05SharedState(w *World, r *Report, p *Proto) {
 
 // ---- C05.5 ------------------------------------------------------------------------------------------------
 
-type ctxState int
+type ownerState int
 
 const (
-	ctxNone ctxState = iota
+	ctxNone ownerState = iota
 	ctxHeld
 	ctxHeldDeferred // release registered with defer: usable until exit
 	ctxReleased
 )
 
-func (s ctxState) String() string {
+func (s ownerState) String() string {
 	return [...]string{"none", "held", "held(defer release)", "released"}[s]
 }
 
@@ -366,13 +370,13 @@ func checkC05ContextOwner(w *World, r *Report, p *Proto) {
 			// path-set dataflow from the Get
 			type key struct {
 				b *ssa.BasicBlock
-				s ctxState
+				s ownerState
 			}
-			inStates := map[*ssa.BasicBlock]map[ctxState]bool{}
+			inStates := map[*ssa.BasicBlock]map[ownerState]bool{}
 			problems := map[string]string{}
-			add := func(b *ssa.BasicBlock, s ctxState, work *[]*ssa.BasicBlock) {
+			add := func(b *ssa.BasicBlock, s ownerState, work *[]*ssa.BasicBlock) {
 				if inStates[b] == nil {
-					inStates[b] = map[ctxState]bool{}
+					inStates[b] = map[ownerState]bool{}
 				}
 				if !inStates[b][s] {
 					inStates[b][s] = true
@@ -381,7 +385,7 @@ func checkC05ContextOwner(w *World, r *Report, p *Proto) {
 			}
 			var work []*ssa.BasicBlock
 			// start: process the Get's block from the Get onwards with state Held; other entries to blocks carry None
-			process := func(b *ssa.BasicBlock, s ctxState, from int) ctxState {
+			process := func(b *ssa.BasicBlock, s ownerState, from int) ownerState {
 				for _, in := range b.Instrs[from:] {
 					if in == ssa.Instruction(g) {
 						if s == ctxHeld || s == ctxHeldDeferred {
